@@ -30,11 +30,16 @@ type govMon struct {
 	snapshot    map[string]map[string]int64
 
 	reachedVoting, internalFinal, internalExpiry, refunds int
+	expiredAt map[string]int64 // height at which a proposal was first seen expired
 }
+
+// an expired proposal is queued at the next BeginBlock and finalised (failed distribution) at that
+// block's end; holding escrow this many blocks after the expiry is a violation
+const govExpiredEscrowGrace = 3
 
 func newGovMon(res *Result, c int, hl *HistoryLog, w *World) *govMon {
 	return &govMon{res: res, c: c, hl: hl, w: w, contributed: map[string]map[string]*big.Int{}, withdrawn: map[string]map[string]*big.Int{},
-		distributed: map[string]bool{}, cfgApplied: map[string]bool{}, snapshot: map[string]map[string]int64{}}
+		distributed: map[string]bool{}, cfgApplied: map[string]bool{}, snapshot: map[string]map[string]int64{}, expiredAt: map[string]int64{}}
 }
 
 func (m *govMon) hit(sig, format string, a ...interface{}) {
@@ -278,6 +283,20 @@ func (m *govMon) block(height int64, cur *GState, okTxs []govTx) {
 			}
 			if p.Type == tyConfig && p.Outcome == ocYes {
 				newlyFinalCfg = append(newlyFinalCfg, id)
+			}
+		}
+		// an expired proposal does not keep its escrow: it is finalised like a failed one
+		if st == 2 && p.Outcome == ocInsVotes {
+			if _, seen := m.expiredAt[id]; !seen {
+				m.expiredAt[id] = height
+			}
+			if height >= m.expiredAt[id]+govExpiredEscrowGrace && it.Total.Sign() > 0 {
+				if len(it.Votes) == 0 {
+					m.res.Counters["locked_with_empty_snapshot"]++
+				} else {
+					m.res.Counters["locked_with_votes"]++
+				}
+				m.hit("expired-escrow-still-locked", "height %d proposal %s expired at height %d and still holds %s (%d vote records, %d validator records)", height, id[:8], m.expiredAt[id], it.Total, len(it.Votes), len(cur.Vals))
 			}
 		}
 		// escrow bookkeeping: records move only by create / fund / withdraw, until a distribution
@@ -546,7 +565,7 @@ func (m *govMon) endBlock(height int64, pre, post *GState, watch []string) {
 			}
 		case (ost == 1 || ost == 2) && (st == 3 || st == 4):
 			m.internalFinal++
-			if !(op.Status == stCompleted && (op.Outcome == ocYes || op.Outcome == ocNo)) {
+			if !(op.Status == stCompleted && (op.Outcome == ocYes || op.Outcome == ocNo || op.Outcome == ocInsVotes)) {
 				m.hit("finalised-without-decision", "EndBlock %d finalised proposal %s from %s", height, id[:8], describe(old))
 			}
 		default:
@@ -556,16 +575,4 @@ func (m *govMon) endBlock(height int64, pre, post *GState, watch []string) {
 	m.settle("endblock", height, pre, post, watch, "")
 }
 
-func (m *govMon) finish() {
-	if m.prev == nil {
-		return
-	}
-	for _, it := range m.prev.Items {
-		st, p, _ := it.where()
-		if p != nil && st == 2 && p.Outcome == ocInsVotes && it.Total.Sign() > 0 && it.Total.Cmp(p.Goal) >= 0 {
-			// observation, not a violation of C14 as stated: an expired proposal is never finalised
-			// (finalisation needs a decided tally) and its escrow can never be withdrawn
-			m.res.Counters["expired_proposals_with_escrow_locked"]++
-		}
-	}
-}
+func (m *govMon) finish() {}
